@@ -101,4 +101,43 @@ def cryptMonitor (C : BlockCipher) (key : Bytes) (reqPlain : Option Bytes) (repl
       some "crypt: the response body is not the encryption of the handler's reply"
     else none
 
+/-- what the framing delivers of the bytes the client sent: a declared length is a promise of exactly that many bytes,
+an unknown length (chunked) ends where the client ends it -/
+def delivered (cl : Int) (raw : Bytes) : Bytes := if cl > 0 then raw.take cl.toNat else raw
+
+/-- the decryption of a WHOLE body (empty body: nothing to decrypt) -/
+def decryptWhole (C : BlockCipher) (key content : Bytes) : Option Bytes :=
+  if content.isEmpty then some []
+  else match b64Decode (bytesToString content) with
+    | none => none
+    | some ct => match ecbDecrypt C key ct with
+      | .ok p => some p
+      | _ => none
+
+/-- "an encrypted body reaches the handler decrypted": the handler saw exactly the decrypted bytes of what the client
+sent, or was not called — never a prefix cut at a limit, never the ciphertext itself, whatever the framing. -/
+def cryptSeenMonitor (C : BlockCipher) (key : Bytes) (cl : Int) (raw : Bytes) (obs : Resp) : Option String :=
+  if cl ≠ 0 ∧ obs.ran ∧ decryptWhole C key (delivered cl raw) ≠ some obs.seen then
+    some s!"crypt: the handler ran on {obs.seen.length} bytes that are not the decryption of the whole body the client sent ({(delivered cl raw).length} bytes)"
+  else none
+
+/-! ## the gates as bound by rest/engine.go -/
+
+/-- the property at the level of a server built through the public API: `declared` = what the route's options asked for,
+`credOk` / `covered` = facts about the request, `obs` = what happened. -/
+def restMonitor {V : Type} [DecidableEq V] (o : RouteOpts) (gatedMethod credOk covered : Bool) (claims : List (String × V))
+    (uses : Nat) (ran : Bool) (status : Nat) (ctx : List (String × V)) (usesRan : Nat) : Option String :=
+  if ran then
+    if o.jwt ∧ !credOk then some "rest: the handler of a route registered WithJwt ran without a valid credential"
+    else if o.sig ∧ o.sigKeys ∧ o.sigStrict ∧ gatedMethod ∧ !covered then
+      some "rest: the handler of a route registered WithSignature (strict) ran without a covering signature"
+    else if o.jwt ∧ ctx ≠ forwarded claims then some "rest: the handler of a WithJwt route did not see exactly the non-standard claims"
+    else if usesRan ≠ uses then some "rest: the handler ran but not every Server.Use middleware did"
+    else none
+  else
+    if !o.jwt ∧ !(o.sig ∧ o.sigKeys) then
+      some s!"rest: a route that declared no gate did not reach its handler (status {status})"
+    else if usesRan ≠ 0 then some "rest: a Server.Use middleware ran for a request a gate rejected"
+    else none
+
 end GoZero.C18
